@@ -8,6 +8,7 @@ import (
 	"fmt"
 	"reflect"
 
+	mocker "github.com/tencent/goom"
 	"github.com/tencent/goom/zverif/vkit"
 )
 
@@ -55,7 +56,22 @@ func (t T) M2(a string, b int) string { ran[10]++; return a + fmt.Sprint(b+t.N) 
 //go:noinline
 func (t *T) MV(a int, va ...string) int { ran[11]++; return a + len(va) + t.N }
 
+// SI is an interface whose methods are stubbed with conditions (the *IContext receiver must be ignored by them).
+type SI interface {
+	Do(a int, b string) string
+	DoV(a int, va ...int) int
+}
+
+var siv SI
+
+var asDo = func(ctx *mocker.IContext, a int, b string) (r string) { vkit.Sink(1); return }
+var asDoV = func(ctx *mocker.IContext, a int, va ...int) (r int) { vkit.Sink(2); return }
+
+var noOriginal int64
+
 type target struct {
+	iface    string      // non-empty: method of interface variable siv
+	as       interface{} // As() template of an interface method
 	name     string
 	fn       interface{} // function, or method expression for methods
 	typ      reflect.Type // signature without receiver
@@ -100,11 +116,30 @@ func init() {
 	addM("(*T).M1", "M1", (*T).M1, true, &ran[9])
 	addM("T.M2", "M2", T.M2, false, &ran[10])
 	addM("(*T).MV", "MV", (*T).MV, true, &ran[11])
+	addI := func(name string, as interface{}) {
+		t := sigWithoutRecv(reflect.TypeOf(as))
+		targets = append(targets, &target{name: "SI." + name, iface: name, as: as, typ: t, variadic: t.IsVariadic(), ran: &noOriginal})
+	}
+	addI("Do", asDo)
+	addI("DoV", asDoV)
 }
 
 // call invokes the target with flattened arguments (fixed..., variadic elements...)
 func (t *target) call(recvN int, flat []reflect.Value) (res []reflect.Value, pv interface{}) {
 	defer func() { pv = recover() }()
+	if t.iface != "" {
+		// a compiled interface method call on the mocked variable
+		switch t.iface {
+		case "Do":
+			return []reflect.Value{reflect.ValueOf(siv.Do(int(flat[0].Int()), flat[1].String()))}, nil
+		default:
+			va := make([]int, 0, len(flat)-1)
+			for _, v := range flat[1:] {
+				va = append(va, int(v.Int()))
+			}
+			return []reflect.Value{reflect.ValueOf(siv.DoV(int(flat[0].Int()), va...))}, nil
+		}
+	}
 	fv := reflect.ValueOf(t.fn)
 	var in []reflect.Value
 	if t.method != "" {
